@@ -40,7 +40,8 @@ class PboGen:
     def name(self, used):
         r = self.r
         while True:
-            parts = [r.choice(['a', 'fn_x', 'data', 'sub', 'Config', 'init', 'b2']) for _ in range(1 + r.below(3))]
+            # 'mod', 'z' and 'addons' repeat pieces of the prefixes below: an entry may be called like the prefix it lives under
+            parts = [r.choice(['a', 'fn_x', 'data', 'sub', 'Config', 'init', 'b2', 'mod', 'z', 'addons', 'x']) for _ in range(1 + r.below(3))]
             n = '\\'.join(parts) + r.choice(['.sqf', '.bin', '.hpp', '.txt', ''])
             if n not in used:
                 used.add(n)
